@@ -3,7 +3,7 @@
 cd "$(dirname "$0")"
 rc=0
 for p in $(.venv/bin/python -c "import json; print(' '.join(c['property_id'] for c in json.load(open('MANIFEST.json'))['checks']))"); do
-  ./check $p --jobs ${JOBS:-12} 2>&1 | grep -v "^KNOWN-FINDING" | tail -1
+  ./check $p --jobs ${JOBS:-12} ${CHECK_ARGS:-} 2>&1 | grep -v "^KNOWN-FINDING" | tail -1
   .venv/bin/python - "$p" <<'PY' || rc=1
 import json, sys, jsonschema
 p = sys.argv[1]
